@@ -122,7 +122,7 @@ impl SubCheck for C10 {
                                 let msg_class: String = {
                                     // drop identifiers/paths: keep the generic wording of the message
                                     let m = msg.as_str();
-                                    if m.contains("is not a generic class") { "not-a-generic-class".to_string() }
+                                    if m.contains("is not a generic class") || m.starts_with("typing.Union[") { "not-a-generic-class".to_string() }
                                     else if m.contains("is not subscriptable") { "not-subscriptable".to_string() }
                                     else { m.split_whitespace().filter(|w| w.chars().all(|c| c.is_ascii_lowercase())).take(5).collect::<Vec<_>>().join("-") }
                                 };
